@@ -750,6 +750,19 @@ def generate_nearmiss(rng):
         "%s %s" % (t, t),
         "loop { %s } " % t.replace("try {", "try { optional { %s; }" % B.text, 1),
     ]
+    # nested loops whose inner loop is left by a break on a non-consuming path and re-entered at once
+    # (a conditional break on data that does not change; an else-break after a multi-valued set)
+    inv = "/[^%s%s]/" % (chr(B.sample[0]) if B.sample and 97 <= B.sample[0] <= 122 else "p", "q")
+    wraps += [
+        "loop lo { loop li { if n0 == 1 { break li; } %s; n0 = 1; } }" % A.text,
+        "loop lo { loop li { if b0 { break li; } %s; b0 = true; } }" % A.text,
+        "loop lo { loop li { case { %s -> {} else -> { break li; } } } case { %s -> { %s; } else -> {} } }" % (inv, esc_str([ord("p")]), esc_str([ord("x")])),
+        "loop lo { loop li { case { %s -> {} else -> { break li; n0 = 1; } } } %s; }" % (A.text, B.text),
+        "loop lo { loop li { case { %s -> {} else -> { break li; n0 = 1; } } } }" % A.text,
+        "loop lo { loop li { case { %s -> {} else -> { break li; } } } }" % A.text,
+        "loop lo { loop li { if n0 == 0 { case { %s -> {} else -> { break li; } } } else { %s; } n0 = [n0 + 1]; } }" % (A.text, B.text),
+        "loop lo { loop li { optional { %s; } break li; } h0(); }" % A.text,
+    ]
     prog = r.choice(wraps)
     if "break;" in prog and "loop" not in prog:
         prog = prog.replace("break;", "")
@@ -1134,3 +1147,54 @@ def generate_greedyprog(rng):
     L.append("}")
     return {"source": "\n".join(L) + "\n", "need": [], "canaries": {}, "samples": [x.hex() for x in samples[-2:]],
             "near_miss": False, "has_strings": False}
+
+
+# ------------------------------------------------------------------ macro-centred programs (C20)
+
+def generate_macroprog(rng):
+    """
+    Programs whose behaviour depends on macro argument binding: nested macros that reuse a
+    parameter name, parameters named like globals that are also used directly before or after
+    the call, match / expr / hook / out parameters.  Name resolution is exactly the kind of
+    compile-time state that must not leak between expansions, compilations or environments.
+    """
+    r = rng
+    outs = ["a0", "b0", "c0"]
+    decl = ["out str[8] a0;", "out str[8] b0;", "out str[8] c0;", "out int n0 = 0;", "out int n1 = 0;", "hook h0;", "hook h1;"]
+    cls = [("a", "f"), ("g", "l"), ("0", "9"), ("m", "t")]
+    macros = []
+    # inner: out + match; the parameter is named like a global (or like the outer macro's parameter)
+    p_in = r.choice(outs + ["dest"])
+    macros.append("macro put(out %s, match m) { %s += m; }" % (p_in, p_in))
+    p_out = r.choice(outs + ["dest", p_in])
+    q_out = r.choice([x for x in outs + ["other"] if x != p_out])
+    c1, c2 = r.sample(cls, 2)
+    macros.append("macro pair(out %s, out %s) { put(%s, /[%s-%s]+/); \"=\"; put(%s, /[%s-%s]+/); }" % (
+        p_out, q_out, q_out, c1[0], c1[1], p_out, c2[0], c2[1]))
+    macros.append("macro bump(out n0, expr e, hook hk) { n0 = [n0 + e]; hk(); }")
+    body = []
+    smp = b""
+    sample_of = lambda c: bytes(r.randint(ord(c[0]), ord(c[1])) for _ in range(r.choice((1, 2, 3))))
+    tgt = r.sample(outs, 3)
+    for k in range(r.choice((2, 3, 4))):
+        kind = r.choice(("direct", "pair", "put", "bump"))
+        sep = r.choice(",;:")
+        if kind == "direct":
+            c = r.choice(cls)
+            body.append("%s += /[%s-%s]+/;" % (r.choice(outs), c[0], c[1]))
+            smp += sample_of(c)
+        elif kind == "pair":
+            body.append("pair(%s, %s);" % (tgt[0], tgt[1]))
+            smp += sample_of(c1) + b"=" + sample_of(c2)
+        elif kind == "put":
+            c = r.choice(cls)
+            body.append("put(%s, /[%s-%s]+/);" % (r.choice(outs), c[0], c[1]))
+            smp += sample_of(c)
+        else:
+            body.append("bump(%s, %s, %s);" % (r.choice(("n0", "n1")), r.choice(("1", "[n1 + 2]", "[$last]")), r.choice(("h0", "h1"))))
+        body.append("\"%s\";" % sep)
+        smp += sep.encode()
+        if r.random() < 0.4:
+            body.append("h0();")
+    src = "\n".join(decl + macros) + "\n\nparser {\n" + "\n".join("    " + x for x in body) + "\n}\n"
+    return {"source": src, "need": [], "canaries": {}, "samples": [smp.hex(), smp[: len(smp) // 2].hex()], "near_miss": False, "has_strings": True}
